@@ -1006,7 +1006,8 @@ func (x *Exec) walk(fr *Frame, blocks []*ssa.BasicBlock, start *ssa.BasicBlock, 
 			}
 			st = x.mergeStates(ins)
 		}
-		if st.reach.S == "false" {
+		if st.reach.S == "false" && !(fr.spec && x.inPass1(fr)) {
+			// (the first pass of an old()-using clause visits every block: it only records old values)
 			continue
 		}
 		if cfg.headers[b] && b != dryHeader {
